@@ -333,3 +333,32 @@ Example counting_nonvacuous : (muhat_c 5 2 3 0 10 = 1 /\ t_closed 5 2 3 0 10 1 =
 Proof. assert (E : (muhat_c 5 2 3 0 10 = 1)%R).
   { unfold muhat_c. replace ((5 - 3) / 2)%R with 1%R by (field). rewrite Rmin_right by lra. rewrite Rmax_right by lra. reflexivity. }
   split; [exact E|]. rewrite <- E. apply t_closed_zero_at_best_fit; lra. Qed.
+
+(* ---------- appended: which optimisation problem the two fits are run on ----------
+   The statistic for the caller's environment e = (data, pdf, init_pars, par_bounds, fixed_params) consults the two
+   fits AT e only: fits that agree with (fit, fixed_poi_fit) on e, whatever they return for any other data, model,
+   starting values, bounds or fixed flags, give the same warnings, value and fitted parameters.  An implementation
+   that hands one of the fits anything but the caller's e is therefore not this model (harness/props/c06.py checks
+   the arguments received by both fits against the caller's on every scripted case). *)
+Theorem fits_consulted_at_callers_env :
+  forall (N : Num) (Env : Type) (fit fit' : Env -> list (V N) * V N) (fixed fixed' : V N -> Env -> list (V N) * V N)
+         (poi_index : Env -> option nat) (poi_lower : Env -> V N) (s : tsname) (mu : V N) (e : Env),
+  fit e = fit' e -> (forall m, fixed m e = fixed' m e) ->
+  teststat N Env fit fixed poi_index poi_lower s mu e = teststat N Env fit' fixed' poi_index poi_lower s mu e.
+Proof.
+  intros N Env fit fit' fixed fixed' poi_index poi_lower s mu e Hfit Hfixed.
+  destruct s; simpl; unfold qmu, qmu_tilde, q0, tmu, tmu_tilde, qmu_like, tmu_like;
+    rewrite Hfit, ?Hfixed; reflexivity.
+Qed.
+
+(* non-vacuity, and the hypothesis is needed: two pairs of fits over Env = bool that agree at the caller's
+   environment `true` and differ at `false` give the same statistic at `true` and different values at `false` *)
+Example fits_consulted_nonvacuous :
+  let q := fun z : Z => Q2Qc (inject_Z z) in
+  let fitA := fun e : bool => ([q 1%Z; q 2%Z], q 10%Z) in
+  let fitB := fun e : bool => ([q 1%Z; q 2%Z], if e then q 10%Z else q 7%Z) in
+  let fx := fun (m : Qc) (e : bool) => ([m; q 3%Z], (q 12%Z + m)%Qc) in
+  let ts := fun fit e => teststat QcNum bool fit fx (fun _ => Some 0%nat) (fun _ => q 0%Z) ST (q 1%Z) e in
+  ts fitA true = ts fitB true /\
+  value_of QcNum (ts fitA false) = Some (q 3%Z) /\ value_of QcNum (ts fitB false) = Some (q 6%Z).
+Proof. repeat split; vm_compute; reflexivity. Qed.
